@@ -29,13 +29,23 @@ def status_contracts(T: Types, reg: Registry, repo: str, pid=PID):
         return z3.And(runner_id_ok(c.arg("runner_id")),
                       z3.Implies(OREC.is_some(cur), runner_id_ok(T.Record.get(OREC.val(cur), "runner_id"))))
 
+    def frm_of(c):
+        cur = c.arg("current_record")
+        return z3.If(OREC.is_some(cur), OST.some(T.Record.get(OREC.val(cur), "status")), OST.none())
+
+    def no_edge(c):
+        return z3.Not(common.spec_edge(T, frm_of(c), c.arg("new_status")))
+
     transition = Contract(
         key=f"{ST}:status_record_transition",
         params={"current_record": OREC, "new_status": T.Status, "runner_id": OSTR},
         result=T.Record,
         requires=[("runner-ids-none-or-nonempty", owner_inv)],
         cases=[
-            Case("refused", when=err, raises="InvocationStatusError"),
+            # the edge is checked first: a missing edge is a TransitionError that carries the stored status, otherwise an OwnershipError
+            Case("refused-no-such-edge", when=lambda c: z3.And(err(c), no_edge(c)), raises="InvocationStatusTransitionError", exact=True,
+                 exc_fields={"from_status": lambda c: Val(frm_of(c), OST)}),
+            Case("refused-not-the-owner", when=lambda c: z3.And(err(c), z3.Not(no_edge(c))), raises="InvocationStatusOwnershipError", exact=True),
             Case("accepted", when=lambda c: z3.Not(err(c)), ensures=[
                 ("status-is-requested", lambda c: T.Record.get(c.result, "status") == c.arg("new_status")),
                 ("owner-per-spec", lambda c: T.Record.get(c.result, "runner_id") ==
